@@ -158,9 +158,17 @@ class RichDB(mm.GenDB):
             arity[f'{lab}.0'] = 0
             proof = (mm.compress_with_reuse(rng, steps, arity, mand) if rng.random() < 0.6 else mm.compress(steps, mand))[0]
             pst = ('p', lab, ['|-'] + mm.term_toks(goal), proof)
-            st.append(('block', hyps + [pst]) if hyps else pst)
+            local_d = []
+            if self.with_dv and rng.random() < 0.3:
+                # a block-local `$d` of the lemma itself, naming an element variable that occurs NOWHERE else in the lemma's cone
+                # (the slice must still declare it: the `$d` is copied into the slice's final block)
+                lone = rng.choice(['x', 'y', 'z', 'a', 'b'])
+                other = rng.choice(self.vars)
+                if lone not in mm.term_toks(goal) and not any(lone in h[2] for h in hyps):
+                    local_d = [('d', [other, lone] if rng.random() < 0.5 else [lone, other])]
+            st.append(('block', local_d + hyps + [pst]) if (hyps or local_d) else pst)
             v = mm.verify(st)
-            if not hyps and not is_gen:
+            if not hyps and not is_gen and not local_d:
                 self.axioms.append((lab, goal))       # later lemmas may use it like an axiom
             self.lemmas.append(lab)
         return st
